@@ -74,6 +74,12 @@ type Module struct {
 	// Ext: further modules on disk (own go.mod) which this module requires and reaches through `replace => <dir>`
 	// (multimod.go).  Their files are part of the snapshotted tree (paths relative to THIS module's root).
 	Ext []ExtMod `json:"ext,omitempty"`
+	// Work: the modules (this one and every Ext) are members of a go.work workspace (workspace.go): "root" = go.work in
+	// this module's root (use . ./api ../mkit), "parent" = go.work in the directory above it (use ./m ./m/api ./mkit).
+	// WorkOnly: the go.mod of this module has NO require / replace lines for the other members (the workspace alone
+	// resolves the imports).  The child process then runs without GOFLAGS=-mod=mod (rejected in workspace mode).
+	Work     string `json:"work,omitempty"`
+	WorkOnly bool   `json:"work_only,omitempty"`
 }
 
 func (m *Module) PkgPath(dir string) string {
@@ -129,7 +135,14 @@ func (m *Module) Materialise(root string) error {
 	if gv == "" {
 		gv = "1.22"
 	}
-	if err := write("go.mod", fmt.Sprintf("module %s\n\ngo %s\n", m.ModPath, gv)+m.requireBlock()); err != nil {
+	req := m.requireBlock()
+	if m.Work != "" && m.WorkOnly {
+		req = ""
+	}
+	if err := write("go.mod", fmt.Sprintf("module %s\n\ngo %s\n", m.ModPath, gv)+req); err != nil {
+		return err
+	}
+	if err := m.writeWork(root); err != nil {
 		return err
 	}
 	for _, x := range m.Ext {
@@ -230,6 +243,9 @@ type Job struct {
 	// Gate: if set, the child writes <out>.ready after NewContext and waits for this file to appear before it calls
 	// Execute (so that a tracer can be attached to exactly the Execute phase).
 	Gate string `json:"gate,omitempty"`
+	// Workspace: the module lies in a go.work workspace; the child is started without GOFLAGS (-mod=mod is rejected in
+	// workspace mode) and without GOWORK (the go command finds go.work by walking up from Dir).
+	Workspace bool `json:"workspace,omitempty"`
 }
 
 type Event struct {
@@ -267,6 +283,9 @@ type World struct {
 	ModPath string `json:"modpath"`
 	GoVer   string `json:"gover"`
 	Pkgs    []WPkg `json:"pkgs"`
+	// RunRoot: root directory of the module of the run relative to ModRoot, when that is not the directory the run was
+	// started in (workspace.go: RunWorld); "" otherwise.  The model writes gengo.sum there.
+	RunRoot string `json:"runroot,omitempty"`
 }
 
 type ChildResult struct {
@@ -787,6 +806,9 @@ func RunChild(job Job, scratch string, wrapper ...string) RunResult {
 	var stderr, stdout bytes.Buffer
 	cmd.Stderr, cmd.Stdout = &stderr, &stdout
 	cmd.Dir = scratch
+	if job.Workspace {
+		cmd.Env = workspaceEnv(os.Environ())
+	}
 	err := cmd.Run()
 	var rr RunResult
 	rr.Stderr = stderr.String()
@@ -928,6 +950,9 @@ func CoqWorld(w *World) string {
 		if p.Direct {
 			direct = append(direct, core.Hex(p.Path))
 		}
+	}
+	if w.RunRoot != "" {
+		return fmt.Sprintf("(mk_world_at %s %s %s)", core.Hex(w.RunRoot), core.CoqList(pkgs), core.CoqList(direct))
 	}
 	return fmt.Sprintf("(mk_world %s %s)", core.CoqList(pkgs), core.CoqList(direct))
 }
